@@ -348,6 +348,17 @@ FORCED_HELLO_CONTENT = [
     {"a": "peer", "p": "p1", "subs": ["T1"]}, {"a": "quiet"}, {"a": "resetIn", "p": "p2"}, {"a": "quiet"}]
 
 
+# what a hello must NOT contain: topics whose last reference is gone, whichever of subscription / relay was released first
+# (a map key left behind with a zero count would be announced on every new stream): both release orders, then a reconnect (down/up:
+# new hello) and a re-opened outbound stream (resetIn: new hello), then the same again after a fresh subscribe/cancel cycle
+FORCED_HELLO_AFTER_RELEASE = [
+    {"a": "subscribe", "t": "T1"}, {"a": "relay", "t": "T1"}, {"a": "unrelay", "t": "T1"}, {"a": "cancel", "t": "T1"}, {"a": "quiet"},
+    {"a": "down", "p": "p1"}, {"a": "peer", "p": "p1", "subs": []}, {"a": "quiet"}, {"a": "resetIn", "p": "p2"}, {"a": "quiet"},
+    {"a": "relay", "t": "T2"}, {"a": "subscribe", "t": "T2"}, {"a": "cancel", "t": "T2"}, {"a": "unrelay", "t": "T2"}, {"a": "quiet"},
+    {"a": "down", "p": "p1"}, {"a": "peer", "p": "p1", "subs": []}, {"a": "quiet"}, {"a": "resetIn", "p": "p2"}, {"a": "quiet"},
+    {"a": "subscribe", "t": "T1"}, {"a": "cancel", "t": "T1"}, {"a": "down", "p": "p2"}, {"a": "peer", "p": "p2", "subs": []}, {"a": "quiet"}]
+
+
 # a still-connected peer opens a second stream WITHOUT closing the first; its hello announces a different set
 # (disjoint, superset, subset of what the replaced stream announced): the belief must follow the live stream
 FORCED_DUP_INBOUND = [
@@ -441,6 +452,7 @@ def build_wire_scenarios(ctx, rng):
         scns.append(assemble_wire(FORCED_HELLO_RACE, router=router, cls="forced-hello-race", held=("p1",)))
         scns.append(assemble_wire(FORCED_INBOUND_FLIP, router=router, cls="forced-inbound-flip"))
         scns.append(assemble_wire(FORCED_HELLO_CONTENT, router=router, cls="forced-hello-content"))
+        scns.append(assemble_wire(FORCED_HELLO_AFTER_RELEASE, router=router, cls="forced-hello-after-release"))
         scns.append(assemble_wire(FORCED_DUP_INBOUND, router=router, cls="forced-dup-inbound"))
         scns.append(assemble_wire(FORCED_CANCEL_TWICE, router=router, cls="forced-cancel-twice"))
     scns.append(assemble_wire(FORCED_GRAYLIST, cls="forced-graylist", **SCORED))
